@@ -11,7 +11,9 @@ THEOREMS = [('DebInspector.Thm.C19', ['Props.C19.refines_dict', 'Props.C19.conve
                                       'Props.C19.specialCases_eq', 'Props.C19.normalize_eq_conventional', 'Props.C19.sound', 'Props.C19.soundT',
                                       'Props.C19.conventional_idem', 'Props.C19.conventional_lower', 'Props.C19.conventional_upper', 'Props.C19.parseControlItems_ok']),
             ('DebInspector.Thm.C19M', ['Props.C19M.soundM', 'Props.C19M.first_addr', 'Props.C19M.first_addr_local', 'Props.C19M.first_addr_of', 'Props.C19M.maintainer_of', 'Props.C19M.addrspec_full', 'Props.C19M.addrspec_local', 'Props.C19M.phrase_words', 'Props.C19M.local_loop',
-                                       'Props.C19M.domain_run', 'Props.C19M.wf_parts'])]
+                                       'Props.C19M.domain_run', 'Props.C19M.wf_parts']),
+            ('DebInspector.Thm.C19R', ['Props.C19R.soundR', 'Props.C19R.dumps_eq', 'Props.C19R.field_facts', 'Props.C19R.lowerAscii_conventional',
+                                       'Props.C19R.construct_distinct', 'Props.C19R.not_signed'])]
 TRUSTED = [
     'Lean 4.33.0 kernel',
     'reading of the property as Props.C19.holdsOn / holdsOnT / holdsOnM (plain insertion-ordered dict keyed by lower-cased names; policy field list; conventional capitalisation)',
@@ -22,10 +24,10 @@ TRUSTED = [
 ]
 ASSUMPTIONS = ['keys are ASCII strings', 'maintainer: single-spaced atoms-and-dots name; address a dot-atom, with or without @ and a dot-atom domain']
 RULE = ('histories of <= 12 operations over 3 keys x 4 casings (all histories of <= 3 operations exhaustively) from every construction route; '
-        'control paragraphs mixing relationship fields, Installed-Size and others in any ASCII case; maintainer names/addresses inside and outside the grammar. '
+        'control paragraphs mixing relationship fields, Installed-Size and others in any ASCII case; maintainer names/addresses inside and outside the grammar; paragraphs as (name, value) pairs rendered and read back, about a third with one injected defect. '
         'non-trivial = the history uses two casings of one key')
 TECHNIQUE = ('Lean 4 theorems: refinement of the mapping to a plain dict for an arbitrary lower function; typed fields of every paragraph with distinct names (soundT); DEPS_FIELDS = policy list and '
-             'normalisation tables by decide; maintainer split proved through a model of email.utils.parseaddr (soundM) + executable spec on every observation + correspondence on operation histories and on adversarial maintainer strings')
+             'normalisation tables by decide; render/read-back proved through the C06 header-parser theorem (soundR); maintainer split proved through a model of email.utils.parseaddr (soundM) + executable spec on every observation + correspondence on operation histories and on adversarial maintainer strings')
 LEVEL_TEXT = ('Props.C19.refines_dict: for every construction route, every finite history of set/get/del/in/len/iter/to_dict and every lower function, '
               'the model of Debian822 returns exactly what a plain insertion-ordered dictionary driven by the same history with lower-cased keys returns '
               '(Lean 4, induction over the history). Tie theorems by decide over the regenerated tables: DEPS_FIELDS equals the policy relationship-field '
@@ -36,6 +38,10 @@ LEVEL_TEXT = ('Props.C19.refines_dict: for every construction route, every finit
               'Props.C19M.soundM: for every name of single-spaced words of atom characters and dots and every address that is a dot-atom or two dot-atoms around one @, the model of MaintainerField.from_value("name <address>") - strip, the model of email.utils.parseaddr '
               '(phrase list, route address, addr-spec loop, domain), then dumps() - returns exactly that name, that address and the unchanged text (first_addr: the address parser returns (name, address) on that grammar, by induction over the words, the local atoms and the domain atoms). '
               'The model of parseaddr is tied to CPython by correspondence on adversarial strings over the parser\'s special characters (comments, quotes, routes, domain literals, stray @ and dots); address groups are outside the model. '
+              'Props.C19R.soundR: for every paragraph of uniquely named fields (names of letters, digits and hyphens in any case; values without carriage returns, trimmed, later lines indented) the model of '
+              'Debian822(Debian822(pairs).dumps()).to_dict() - the mapping built from the pairs, its rendering under the conventional capitalisation, signature removal, the model of the header parser - is the paragraph itself under '
+              'lower-cased names: the rendering is a one-paragraph document of the C06 grammar (dumps_eq, field_facts), the conventional capitalisation of a name lower-cases back to it (lowerAscii_conventional), the text is not taken for a '
+              'signed message (not_signed), and the header-parser theorem of C06 (getParagraphData_para) does the rest. '
               'The text/file construction routes are decided by the executable specification on every implementation observation and by correspondence.')
 LEVEL_NOTE = ('Trusted: Lean kernel; axioms propext, Classical.choice, Quot.sound only; ASCII restriction of lower/capitalize; email.utils.parseaddr is standard-library code modelled by hand (Model/Addr.lean) and tied by correspondence, groups outside the model.')
 
@@ -168,6 +174,18 @@ def observe(opname, inp):
             else:
                 out.append([name, ['r', val]])
         return out
+    if opname == 'C19r':
+        try:
+            d = debcon.Debian822([(k, v) for k, v in inp])
+            text = d.dumps()
+            if repr(d) != text:
+                return Exc('ReprDiffersFromDumps')
+            back = debcon.Debian822(text).to_dict()
+            if not all(isinstance(k, str) and isinstance(v, str) for k, v in back.items()):
+                return Exc('NotAString')
+            return [[k, v] for k, v in back.items()]
+        except Exception as e:
+            return Exc(type(e).__name__)
     name, addr = inp
     m = debcon.MaintainerField.from_value('%s <%s>' % (name, addr))
     if m is None:
@@ -175,7 +193,22 @@ def observe(opname, inp):
     return [m.name, m.email_address, m.dumps()]
 
 
+def wf_r(inp):
+    """Python mirror of Props.C19.wfR (used only to count non-vacuous cases)"""
+    import re
+    if not inp:
+        return False
+    for k, v in inp:
+        if not re.fullmatch(r'[A-Za-z][A-Za-z0-9-]*', k):
+            return False
+        if '\r' in v or v != v.strip() or any(not l[:1] in (' ', '\t') for l in v.split('\n')[1:]):
+            return False
+    return len(set(k.lower() for k, _ in inp)) == len(inp)
+
+
 def nontrivial(opname, inp, obs):
+    if opname == 'C19r':
+        return wf_r(inp)
     if opname == 'C19':
         ks = [o[1] for o in inp[1] if len(o) > 1]
         return len(set(ks)) > len(set(k.lower() for k in ks))
@@ -186,6 +219,10 @@ def histogram(opname, inp, obs):
     if opname == 'C19':
         yield 'route:' + inp[0][0]
         yield 'ops=%d' % min(len(inp[1]), 12)
+    elif opname == 'C19r':
+        yield 'C19r:' + ('in-class' if wf_r(inp) else 'outside')
+        if wf_r(inp) and any('\n' in v for _k, v in inp):
+            yield 'C19r:multi-line-value'
     else:
         yield opname
 
@@ -206,6 +243,8 @@ def valid_input(opname, inp):
                 assert o[0] in 'sgdclit' and all(isinstance(y, str) for y in o)
                 assert len(o) == {'s': 3, 'g': 2, 'd': 2, 'c': 2, 'l': 1, 'i': 1, 't': 1}[o[0]]
             return True
+        if opname == 'C19r':
+            return all(len(x) == 2 and all(isinstance(y, str) for y in x) and x[0].isascii() for x in inp)
         if opname == 'C19t':
             return all(len(x) == 2 and all(isinstance(y, str) for y in x) for x in inp) and len(set(x[0].lower() for x in inp)) == len(inp)
         return len(inp) == 2 and all(isinstance(y, str) for y in inp)
@@ -268,6 +307,46 @@ def maint(rng):
     return [rng.choice(names), a] if r < 0.88 else [n, rng.choice(addrs)]
 
 
+R_NAMES = ['Package', 'version', 'DEPENDS', 'x-foo', 'Checksums-Sha256', 'md5sum', 'X-SHA1-sum', 'Description', 'a', 'B2', 'unknown', 'From', 'Installed-Size', 'a-', 'x--y', 'Licence']
+R_ODD_NAMES = ['X_Foo', 'a b', '', ':', '-a', '2a', 'a:b', 'From ', '#c', 'a\tb']
+R_FIRST = ['foo', '1.0-1', 'a: b', 'http://x:80/y?z', '.dot', 'From me', 'x  y', '(>= 1.0), b | c', ':', '"q"', '-', 'p\x0cq', '\xe9t\xe9', '#hash', '-----BEGIN PGP SIGNED MESSAGE-----']
+R_CONTS = [' cont', '\tcont', '  two', ' .', ' a: b', ' From x', ' #', ' \xe9', '  -----END PGP SIGNATURE-----']
+
+
+def rpairs(rng):
+    """paragraphs as (name, value) pairs: mostly inside the class of the clause (unique names, trimmed values whose later
+    lines are indented), with one defect injected in about a third"""
+    n = rng.choice((1, 1, 2, 3, 5))
+    names = rng.sample(R_NAMES, n)
+    pairs = []
+    for nm in names:
+        if rng.random() < 0.4:
+            nm = ''.join(c.upper() if rng.random() < 0.5 else c.lower() for c in nm)
+        v = rng.choice(R_FIRST)
+        for _ in range(rng.choice((0, 0, 0, 1, 2, 3))):
+            v += '\n' + rng.choice(R_CONTS)
+        if rng.random() < 0.08:
+            v = ''
+        pairs.append([nm, v])
+    r = rng.random()
+    if r < 0.33 and pairs:
+        i = rng.randrange(len(pairs))
+        k = rng.random()
+        if k < 0.2:
+            pairs[i][0] = rng.choice(R_ODD_NAMES)
+        elif k < 0.35:
+            pairs.append([pairs[i][0].swapcase(), rng.choice(R_FIRST)])
+        elif k < 0.5:
+            pairs[i][1] += rng.choice((' ', '\n', '\t', '\n ', '\r', '\n .\n'))
+        elif k < 0.65:
+            pairs[i][1] = rng.choice((' ', '\n', '\t')) + pairs[i][1]
+        elif k < 0.8:
+            pairs[i][1] += '\n' + rng.choice(('unindented', '', 'Name: x', ' ', '\x0cff'))
+        else:
+            pairs[i][1] = pairs[i][1].replace(' ', rng.choice(('\r', '\r\n', '\x0b', '\u2028')), 1)
+    return pairs
+
+
 def text_routes(rng, n):
     """support: the text and file-object routes give the mapping get_paragraph_data(remove_signature) gives"""
     import gen822
@@ -298,3 +377,4 @@ def streams(tier, rng):
     yield {'name': 'histories-random', 'op': 'C19', 'cases': ([route(rng), [op(rng) for _ in range(rng.randint(0, 12))]] for _ in range(n))}
     yield {'name': 'control-paragraphs', 'op': 'C19t', 'cases': (control(rng) for _ in range(n // 2))}
     yield {'name': 'maintainers', 'op': 'C19m', 'cases': (maint(rng) for _ in range(n))}
+    yield {'name': 'render-and-read-back', 'op': 'C19r', 'cases': (rpairs(rng) for _ in range(n))}
